@@ -197,7 +197,10 @@ ChainLinks == {RuleLink(<<tg>>, tfs, op, FALSE, << >>) :
                  op \in {OpLit("streq", s_x), Op("streq", <<Lit(s_X)>>, TRUE), OpLit("ge", s_2)}}
 ChainEntries == {E(c, s_a, v) : c \in {"ARGS_GET", "ARGS_POST"}, v \in {s_x, s_X}}
 ChainPicks(maxEntries, maxChain, phases, slice, slices) ==
-  [l1 : ChainStarters, ls : UNION {SeqsOfLen(ChainLinks, n) : n \in 1..maxChain}, p : phases,
+  \* a link over MATCHED_VARS comes right after the starter, while the collection still holds matches of one name only:
+  \* the order in which matches of different names are walked is the order of a map in the implementation and is
+  \* left open (Choice_MatchedVarsOrder), so no scenario depends on it
+  [l1 : ChainStarters, ls : {q \in UNION {SeqsOfLen(ChainLinks, n) : n \in 1..maxChain} : \A i \in 2..Len(q) : q[i].targets[1].col # "MATCHED_VARS"}, p : phases,
    rq : SliceOf(SeqsUpTo(ChainEntries, maxEntries), slice, slices)]
 ChainScen(pk) ==
   MkScen(<<MkRule(10, pk.p, <<pk.l1>> \o pk.ls),
